@@ -50,7 +50,7 @@ func (o *Oracle) Case(canon string, nontrivial bool) {
 	}
 }
 
-func (o *Oracle) Count(key string) { o.Dist[key]++ }
+func (o *Oracle) Count(key string)      { o.Dist[key]++ }
 func (o *Oracle) Add(key string, n int) { o.Dist[key] += n }
 
 func (o *Oracle) Sample(s interface{}) {
